@@ -122,6 +122,59 @@ fn iloc_monotone_x() {
     assert!(in_range(ix) && in_range(iy));
 }
 
+/// Every position the algorithm can query on one axis of a reflective box: the closed interval
+/// [a - w, a + 2w] contains the generator, both mirror images and (for the tripled box) nothing else;
+/// the harness interval is widened to [a - 1.25 w, a + 2.25 w] so that the few ulps of rounding in the
+/// computation of a mirror image (2 * projection - x; shown to be the exact reflection over the reals
+/// by Engine M) are covered with a margin of w/4.
+fn any_position(ax: usize, periodic: bool) {
+    let a: f64 = kani::any();
+    let w: f64 = kani::any();
+    let x: f64 = kani::any();
+    let h: f64 = kani::any();
+    kani::assume(a >= -A_MAX && a <= A_MAX);
+    kani::assume(w >= W_MIN && w <= W_MAX);
+    // margin h with 0 <= 4h <= W (no multiplication in the harness: additions only)
+    // (A, W): the box whose walls produce the mirror images (tripled when periodic)
+    let (aa, ww) = if periodic { (a - w, w + w + w) } else { (a, w) };
+    kani::assume(h >= 0. && h + h + h + h <= ww);
+    kani::assume(x >= aa - ww - h && x <= aa + ww + ww + h);
+    let b = vh::Boundary::cuboid(axis(ax, a, 0.0), axis(ax, w, 1.0), periodic, Dimensionality::ThreeD);
+    // dev profile: the debug assertions of iloc (rescaled coordinate in [1,2)) are checked as well
+    let il = b.iloc(axis(ax, x, 0.5));
+    assert!(in_range(il));
+}
+
+#[kani::proof]
+fn iloc_any_position_x() {
+    any_position(0, false);
+}
+
+#[kani::proof]
+fn iloc_any_position_y() {
+    any_position(1, false);
+}
+
+#[kani::proof]
+fn iloc_any_position_z() {
+    any_position(2, false);
+}
+
+#[kani::proof]
+fn iloc_any_position_periodic_x() {
+    any_position(0, true);
+}
+
+#[kani::proof]
+fn iloc_any_position_periodic_y() {
+    any_position(1, true);
+}
+
+#[kani::proof]
+fn iloc_any_position_periodic_z() {
+    any_position(2, true);
+}
+
 /// vacuity witness: the assumptions of `setup` are satisfiable and the assertion is reached
 #[kani::proof]
 fn iloc_witness() {
